@@ -28,11 +28,16 @@ export function decode(t) {
     case "set": return new Set(t.es.map(decode));
     case "arr": return t.es.map(decode);
     case "obj": {
-      const o = t.c === "null" ? Object.create(null) : t.c === "inst" ? new (class Inst {})() : {};
+      // "inh": every property is inherited from a (marked) prototype object, the object itself has no own property
+      const holder = t.c === "null" ? Object.create(null) : t.c === "inst" ? new (class Inst {})() : {};
       for (const p of t.ps) {
-        Object.defineProperty(o, p.key, { value: decode(p.v), enumerable: true, writable: true, configurable: true });
+        Object.defineProperty(holder, p.key, { value: decode(p.v), enumerable: true, writable: true, configurable: true });
       }
-      return o;
+      if (t.c === "inh") {
+        Object.defineProperty(holder, INH, { value: true, enumerable: false });
+        return Object.create(holder);
+      }
+      return holder;
     }
     case "other": return /re/;
   }
@@ -43,6 +48,7 @@ function numTok(n) {
   if (Object.is(n, -0)) return "-0";
   return String(n);
 }
+const INH = Symbol("beff-verif-inherited");
 export function encode(v, depth = 0) {
   if (depth > 64) return { k: "other", d: "deep" };
   if (v === null) return { k: "null" };
@@ -63,6 +69,11 @@ export function encode(v, depth = 0) {
   if (Array.isArray(v)) return { k: "arr", es: Array.from(v, (x) => encode(x, depth + 1)) };
   if (v instanceof RegExp) return { k: "other", d: "regexp" };
   const proto = Object.getPrototypeOf(v);
+  if (proto !== null && proto[INH] === true && Object.getPrototypeOf(proto) === Object.prototype) {
+    const own = Object.keys(v).map((key) => ({ key, v: encode(v[key], depth + 1) }));
+    const inherited = Object.keys(proto).map((key) => ({ key, v: encode(proto[key], depth + 1) }));
+    return { k: "obj", c: own.length === 0 ? "inh" : "inhown", ps: inherited.concat(own) };
+  }
   const c = proto === null ? "null" : proto === Object.prototype ? "plain" : "inst";
   return { k: "obj", c, ps: Object.keys(v).map((key) => ({ key, v: encode(v[key], depth + 1) })) };
 }
